@@ -35,20 +35,17 @@ THEOREMS = [
     "Ffcx.Naming.reprFlt_inj",
     "Ffcx.Naming.options_sorted_inj",
     "Ffcx.Naming.options_order_indep",
+    "Ffcx.Naming.pointsKey_prefix",
     "Ffcx.Naming.encode_objs_tag_inj",
-    "Ffcx.Naming.encode_inj_partial",
+    "Ffcx.Naming.encode_inj",
     "Ffcx.Naming.encode_stable",
-    "Ffcx.Naming.npRepr_rounds_counterexample",
-    "Ffcx.Naming.npRepr_elides_counterexample",
-    "Ffcx.Naming.encode_inj_counterexample",
-    "Ffcx.Naming.encode_inj_counterexample_elided",
-    "Ffcx.Naming.exactRepr_prefix",
     "Ffcx.Naming.ident_valid",
     "Ffcx.Naming.alias_valid",
     "Ffcx.Naming.names_distinct",
     "Ffcx.Naming.integralPre_inj",
+    "Ffcx.Naming.expressionPre_inj",
+    "Ffcx.Naming.expression_names_distinct",
     "Ffcx.Naming.names_distinct_counterexample",
-    "Ffcx.Naming.names_distinct_counterexample_expression",
 ]
 
 LEAN_FILES = [
@@ -99,7 +96,7 @@ def rscalar(rng):
 
 
 def rpoints(rng, big_ok=True):
-    """Random evaluation-point arrays, mostly inside the modelled domain of npRepr."""
+    """Random evaluation-point arrays, of several shapes, dtypes and magnitudes."""
     n = rng.choice([1, 1, 2, 3, 4, 7] + ([334, 501] if big_ok else []))
     d = rng.randint(1, 3)
     mode = rng.randint(0, 5)
@@ -180,33 +177,41 @@ def corr_printers(chk, d, rng, n):
                 chk.disagree(f"repr({cmd})", {"input": parts, "model": got, "impl": repr(fn(parts))})
 
 
-def corr_nprepr(chk, d, rng, n):
-    sup = 0
+def corr_pointskey(chk, d, rng, n):
+    """dtype.str ++ str(shape) ++ digest: the model's `pointsKey` vs the text ffcx.naming builds."""
+    import hashlib
+
+    import ffcx.naming
+    import ufl
+
+    m, V = _tri()
+    expr = ufl.grad(ufl.Coefficient(V))
+    esig = X.expression_signature(expr)
     for _ in range(n):
         a = rpoints(rng)
-        r = d.ask("(nprepr " + X.sexp_points(a) + ")")
-        if r == ["unsupported"]:
-            chk.case("nprepr-unsupported")
-            continue
-        sup += 1
-        got = DEC(r)
-        chk.case("nprepr", key=f"{a.shape[1]}:{'big' if a.size > 1000 else a.shape[0]}:{a.dtype}:{len(repr(a)) % 7}")
-        if got != repr(a):
-            chk.disagree("repr(ndarray)", {"input": a.tolist()[:8], "dtype": str(a.dtype), "shape": a.shape,
-                                           "model": got[:400], "impl": repr(a)[:400]})
-    chk.notes["nprepr_supported"] = sup
+        c = rng.random()
+        if c < 0.15:
+            a = np.asfortranarray(a)  # non C-contiguous input: ascontiguousarray copies
+        elif c < 0.25:
+            a = a[::-1]
+        elif c < 0.3:
+            a = a.reshape(-1)  # 1-D: shape prints as (n,)
+        elif c < 0.35:
+            a = (a * 8).astype(np.int64)
+        pts = np.ascontiguousarray(a)
+        want = f"{pts.dtype.str}{pts.shape}" + hashlib.sha1(pts.tobytes()).hexdigest()
+        got = DEC(d.ask("(pointskey " + X.sexp_points(a) + ")"))
+        chk.case("pointskey", key=f"{pts.dtype.str}:{pts.ndim}:{'big' if pts.size > 1000 else pts.shape[0]}:{a.flags['C_CONTIGUOUS']}")
+        # what the REAL compute_signature puts into the hashed string, and which bytes it digests
+        with X.CaptureSha1() as cap:
+            ffcx.naming.compute_signature([(expr, a)], "t")
+        real = cap.strings[-1].split(";")[0][len(esig):]
+        if got != want or real != got or cap.blobs != [pts.tobytes()]:
+            chk.disagree("points key", {"dtype": str(a.dtype), "shape": a.shape, "model": got, "impl": real, "harness": want})
 
 
 def _model_tag_form(d, prefix, i):
     return DEC(d.ask(f"(formtag {U(prefix)} {i})"))
-
-
-def _points_or_raw(d, pts):
-    """Model points if inside the model's domain, else the opaque repr."""
-    s = X.sexp_points(pts)
-    if s.startswith("(points") and d.ask("(nprepr " + s + ")") == ["unsupported"]:
-        return f"(repr {U(repr(pts))})", False
-    return s, s.startswith("(points")
 
 
 def corr_encode(chk, d, rng, entries, nopt):
@@ -234,9 +239,7 @@ def corr_encode(chk, d, rng, entries, nopt):
             else:
                 parts, modelled = [], True
                 for ex_, pts in objs2:
-                    ps, ok = _points_or_raw(d, pts)
-                    modelled &= ok
-                    parts.append(f"({X.expression_signature(ex_)} {ps})")
+                    parts.append(f"({X.expression_signature(ex_)} {X.sexp_points(pts)})")
                 objs_s = "(exprs " + " ".join(parts) + ")"
             req = f"(request {env} {objs_s} (opts {X.sexp_items(p)}) (comp {X.sexp_compile(args, dbg)}))"
             got = d.ask(req)
@@ -260,8 +263,8 @@ def corr_encode(chk, d, rng, entries, nopt):
                     shape = "form_"
                 else:
                     ex_, pts = objs2[i]
-                    ps, _ = _points_or_raw(d, pts)
-                    got = d.ask(f"(encode {env} (exprs ({X.expression_signature(ex_)} {ps})) {U(prefix)})")
+                    tag = DEC(d.ask(f"(exprtag {U(prefix)} {i})"))
+                    got = d.ask(f"(encode {env} (exprs ({X.expression_signature(ex_)} {X.sexp_points(pts)})) {U(tag)})")
                     shape = "expression_"
                 chk.case("encode-object", key=f"{e.name}:{i}" if k == 0 else None)
                 if DEC(got) != cap:
@@ -604,7 +607,7 @@ def run(chk):
     thorough = chk.tier == "thorough"
     rng = random.Random(1000 + chk.seed)
     chk.rule = ("printer cases: random scalars/option dicts/point arrays (key = type, length class); encode cases: corpus "
-                "entry x random options x compile args (non-trivial = inside the numpy model's domain); stability: request x "
+                "entry x random options x compile args (every request is non-trivial); stability: request x "
                 "process variant; separation: one key per ingredient; distinct-names: one key per generated module")
     chk.trusted += [
         "SHA-1 is uninterpreted in the model; theorems assume injectivity on the hashed strings where stated",
@@ -614,7 +617,7 @@ def run(chk):
     ]
     chk.assumptions += [
         "non-win32 branch of _compilation_signature; strings restricted to ASCII in the repr(str) correspondence",
-        "npRepr models 2-D float64/float32 arrays with <= 6 columns in positional notation; other arrays enter as opaque text",
+        "the SHA-1 of the point bytes is a parameter of the model (`digest`), computed by the harness with hashlib",
     ]
     X.regenerate()
     chk.lean("FfcxProofs.C13", THEOREMS, extra_files=LEAN_FILES)
@@ -624,11 +627,11 @@ def run(chk):
         fixed = {e.name: e for e in corpus.fixed() + corpus.expressions()}
         with lean.Driver("driver_names") as d:
             corr_printers(chk, d, rng, 6000 if thorough else 1200)
-            corr_nprepr(chk, d, rng, 4000 if thorough else 500)
+            corr_pointskey(chk, d, rng, 4000 if thorough else 500)
             names = list(fixed) if thorough else ["mass_tri_p1", "laplace_coef_tri_p2", "stokes_mixed", "subdomains", "prism",
                                                     "int_facet_tri", "expr_grad_tri", "expr_grad_tet", "expr_rank1", "expr_tensor", "expr_facet"]
             corr_encode(chk, d, rng, [fixed[n] for n in names if n in fixed], 6 if thorough else 4)
-            # expressions at random points (exercise npRepr inside encode)
+            # expressions at random points (exercise pointsKey inside encode)
             import ufl
 
             class _E:
